@@ -140,7 +140,8 @@ class SimpleOperationExecutor:
         try:
             result = self.file_comparison_result(
                 filename, file_comparison_name)
-        except FileNotFoundError:
+        except (FileNotFoundError, NotADirectoryError):
+            # A path below a regular file does not exist
             raise FileNotFoundError(
                 'The requested file does not exist: {:s}'.format(filename))
         except IsADirectoryError:
